@@ -129,14 +129,14 @@ def as_container(seq, how):
     seq = list(seq)
     if how == 'tuple':
         return tuple(seq)
-    if how == 'range' and len(seq) >= 1:
+    if how == 'range' and len(seq) >= 1 and all(isinstance(x, int) for x in seq):
         step = seq[1] - seq[0] if len(seq) > 1 else 1
         r = range(seq[0], seq[0] + step * len(seq), step) if step else None
         if r is not None and list(r) == seq:
             return r
     if how == 'array':
         import array
-        return array.array('i', seq)
+        return array.array('i', seq) if all(isinstance(x, int) for x in seq) else array.array('d', seq)
     if how == 'userlist':
         from collections import UserList
         return UserList(seq)
@@ -254,7 +254,7 @@ def strat_lib(draw):
             # the permutations that a range can express: identity and reversal
             seq = sorted(seq, reverse=draw(st.booleans()))
         if kind == 'invalid':
-            how = draw(st.sampled_from(['short', 'long', 'repeat', 'range', 'zero', 'shift', 'negative-alias', 'negative-alias', 'all-negative']))
+            how = draw(st.sampled_from(['short', 'long', 'repeat', 'range', 'zero', 'shift', 'negative-alias', 'negative-alias', 'all-negative', 'fraction', 'fraction']))
             if how == 'short':
                 if not seq:
                     seq = [1]
@@ -272,6 +272,12 @@ def strat_lib(draw):
                 # an image replaced by the negative number that indexes the same slot of a table from the end
                 i = draw(st.integers(0, len(seq) - 1))
                 seq[i] = seq[i] - (size + 1 if key == 'vp' else size)
+            elif how == 'fraction' and len(seq) >= 3 and key != 'pf':
+                # a non-integral number strictly between the smallest and the largest entry: lengths, bounds and
+                # distinctness are all fine, only "is a permutation" is not
+                order = sorted(range(len(seq)), key=lambda i_: seq[i_])
+                i = order[draw(st.integers(1, len(seq) - 2))]
+                seq[i] = seq[i] + draw(st.sampled_from([0.5, -0.5, 0.25]))
             elif how == 'all-negative' and seq and key != 'pf':
                 seq = [x - (size + 1 if key == 'vp' else size) for x in seq]
             elif how == 'shift' and seq and key != 'pf':
@@ -440,7 +446,7 @@ def enum_pipe(tier):
 
 SUBCHECKS = [
     SubCheck('library', run_lib, strategy=strat_lib, enumerate_cases=enum_lib, quick=3000, thorough=120000,
-             rule="CNFs with 0..8 variables, 0..10 clauses (duplicates, empty clauses, unused variables) x each of the three arguments in {'fixed','shuffle', explicit sequence given as list / tuple / range (identity, reversal) / array.array / UserList, explicit invalid (wrong length, repeated, out of range, 0/2 flips, shifted base, images replaced by the negative numbers that index the same table slot from the end)} x seeds; complete slice: every explicit (flips, permutation, clause permutation) on two small formulas; oracle: explicit => equals the documented mapping, invalid => ValueError, random => hook witness verified (or backtracking search), same variable/clause counts, width multiset and model count, inputs untouched, description keeps the original text; non-trivial: >=3 variables, >=3 distinct clauses, some component not fixed",
+             rule="CNFs with 0..8 variables, 0..10 clauses (duplicates, empty clauses, unused variables) x each of the three arguments in {'fixed','shuffle', explicit sequence given as list / tuple / range (identity, reversal) / array.array / UserList, explicit invalid (wrong length, repeated, out of range, 0/2 flips, shifted base, images replaced by the negative numbers that index the same table slot from the end, a non-integral number between the extremes)} x seeds; complete slice: every explicit (flips, permutation, clause permutation) on two small formulas; oracle: explicit => equals the documented mapping, invalid => ValueError, random => hook witness verified (or backtracking search), same variable/clause counts, width multiset and model count, inputs untouched, description keeps the original text; non-trivial: >=3 variables, >=3 distinct clauses, some component not fixed",
              required_labels=['pf:fixed', 'pf:shuffle', 'pf:explicit', 'vp:fixed', 'vp:shuffle', 'vp:explicit', 'cp:fixed',
                               'cp:shuffle', 'cp:explicit', 'invalid-rejected', 'hook-witness', 'searched-witness', 'reference',
                               'descending-range', 'as:array', 'as:UserList']),
